@@ -116,6 +116,20 @@ Definition key_rows_ok (P b : Z) (n cin cols_out msize dsize dnum : nat) (K : pm
 Definition wf_cols (n ncols size : nat) (c : cols_t) : Prop :=
   length c = ncols /\
   forall ci, (ci < ncols)%nat -> length (col c ci) = size /\ forall l, (l < size)%nat -> length (lim (col c ci) l) = n.
-Definition wf_pmat (n : nat) (m : pmat) : Prop := forall q c, length (m q c) = n.
+(* the key matrix only has to be well formed where it is read: q < rows = dnum*cin, c < cols = msize*cols_out
+   (Gadget.pmat_of_flat returns [] outside the dumped range); pmat_z = its zero extension *)
+Definition wf_pmat_in (n rows cols : nat) (m : pmat) : Prop := forall q c, (q < rows)%nat -> (c < cols)%nat -> length (m q c) = n.
+Definition pmat_z (n rows cols : nat) (m : pmat) : pmat :=
+  fun q c => if Nat.ltb q rows && Nat.ltb c cols then m q c else pzero n.
 (* limb family of a column list *)
 Definition limbs_of (c : cols_t) (co j : nat) : list Z := lim (col c co) j.
+
+(* secret family of a GLWE secret sk = [s_0; ...; s_{rank-1}] : 1, s_0, s_1, ... *)
+Definition pone_n (n : nat) : list Z := 1 :: zeros (n - 1).
+Definition sk_ext (n : nat) (sk : list (list Z)) (co : nat) : list Z :=
+  match co with O => pone_n n | S i => nth i sk (pzero n) end.
+
+(* gadget product started from an accumulator that is not zeroed (cmux takes it from scratch): what it held in the limbs
+   j >= sz_r(0) survives iteration 0.  `clean` = those limbs are zero (vacuous for dsize <= 2, where sz_r(0) = msize). *)
+Definition res0_clean (n cols_out msize dsize : nat) (res0 : cols_t) : Prop :=
+  forall co j, (co < cols_out)%nat -> (sz_r msize dsize 0 <= j)%nat -> (j < msize)%nat -> lim (col res0 co) j = pzero n.
